@@ -389,6 +389,55 @@ func (g *golden) layout(who string) {
 	g.stats["xver-layout-checked"]++
 }
 
+func odb2() *old.DB { return old.Open("/db") }
+
+type nameObj interface {
+	sod.Object
+}
+
+func nameObjs() []func() nameObj {
+	return []func() nameObj{
+		func() nameObj { return &shapes.MD5Sum{} }, func() nameObj { return &shapes.HTTP2Conn{} },
+		func() nameObj { return &shapes.X509Cert{} }, func() nameObj { return &shapes.Int32x4{} },
+		func() nameObj { return &shapes.ABCDef{} }, func() nameObj { return &shapes.SHA256{} },
+		func() nameObj { return &shapes.A1b2C3{} }, func() nameObj { return &shapes.IOReader9{} },
+	}
+}
+
+// names: the pinned release creates one collection per oddly named type; the
+// current code must find every one of them (same directory name) and the
+// directory must carry the name an independent reading of the rule gives.
+func (g *golden) names(o *old.DB, c *sod.DB, who string) {
+	for _, mk := range nameObjs() {
+		x := mk()
+		tn := fmt.Sprintf("%T", x)[1:] // "shapes.MD5Sum"
+		dir := tn
+		if g.cfg.Lower {
+			dir = snake(tn)
+		}
+		if o != nil {
+			if err := o.Create(x, old.Schema{Extension: g.cfg.Ext, Compress: g.cfg.Compress}); err != nil {
+				g.fail("old-create", "pinned release: Create(%s) failed: %v", tn, err)
+			}
+			if err := o.InsertOrUpdate(x); err != nil {
+				g.fail("old-write", "pinned release: insert into %s failed: %v", tn, err)
+			}
+			if _, ok := g.w.FS.RawList("/db/" + dir); !ok {
+				g.fail("dir-name:"+tn, "the pinned release stores %s in a directory that is not %q", tn, dir)
+			}
+			continue
+		}
+		n, err := c.Count(x)
+		if err != nil || n != 1 {
+			g.fail("dir-name:"+tn, "%s: the collection of %s written by the pinned release (directory %q) is not found by the current code: Count=%d, %v", who, tn, dir, n, err)
+		}
+		g.stats["xver-names-checked"]++
+	}
+	if o != nil {
+		o.Close()
+	}
+}
+
 // RunGolden is the cross-version half of C18.
 func RunGolden(p Params) *Result {
 	r := simrt.NewRand(simrt.Mix(p.Seed, 11))
@@ -422,6 +471,7 @@ func RunGolden(p Params) *Result {
 			g.fail("old-close", "pinned release: Close failed: %v", err)
 		}
 		g.layout("pinned")
+		g.names(odb2(), nil, "pinned")
 		// phase 2: the current code opens it
 		cdb := sod.Open("/db")
 		if g.r.Bool() {
@@ -431,6 +481,7 @@ func RunGolden(p Params) *Result {
 			}
 		}
 		g.observe(curDB{cdb}, "current-on-pinned-dir", true)
+		g.names(nil, cdb, "current-on-pinned-dir")
 		g.writes(curDB{cdb}, "current", nCur)
 		g.observe(curDB{cdb}, "current-after-own-writes", true)
 		if err := cdb.Close(); err != nil {
